@@ -34,11 +34,15 @@ def run(ctx):
     # 2. random walks over a larger universe (3 accounts, 8 transfers, pool of 6)
     depth = ctx.pick(16, 22)
     walks = ctx.behaviours("exec", "Gen_TxPool", "Gen_TxPool.cfg", constants=dict(gen, MaxOps=depth, Depth=depth),
-                           simulate="num=%d" % ctx.pick(250, 4000), depth=depth + 1, seed=ctx.seed, timeout=1500)
+                           simulate="num=%d" % ctx.pick(40, 500), depth=depth + 1, seed=ctx.seed, timeout=1500)
     gen2 = dict(gen, Accounts='{"a", "b"}', Values="{1, 2}", Limits="{1}", MaxTs=4, Th=2, InitBal=4, MaxN=8, MaxPool=8)
     params2 = dict(Th=2, Price=1, MinStep=1, InitBal=4, MaxPool=8)
     walks2 = ctx.behaviours("exec", "Gen_TxPool", "Gen_TxPool.cfg", constants=dict(gen2, MaxOps=depth, Depth=depth),
-                            simulate="num=%d" % ctx.pick(150, 3000), depth=depth + 1, seed=ctx.seed + 100, timeout=1500)
+                            simulate="num=%d" % ctx.pick(40, 500), depth=depth + 1, seed=ctx.seed + 100, timeout=1500)
+    # (the simulator also prints the sibling successors of the last step of every walk: keep an evenly spread subset)
+    def spread(bs, n):
+        return bs if len(bs) <= n else [bs[(i * len(bs)) // n] for i in range(n)]
+    walks, walks2 = spread(walks, ctx.pick(1200, 40000)), spread(walks2, ctx.pick(800, 20000))
     cases = [dict(params=params, accounts=["a", "b", "c"], steps=b) for b in walks]
     cases += [dict(params=params2, accounts=["a", "b"], steps=b) for b in walks2]
     sel = [len(s["sel"]) for c in cases for s in c["steps"] if s["op"] == "candidate"]
